@@ -17,8 +17,9 @@ type Ctx struct {
 	R    *core.Report
 	Tier string
 
-	lk  *locks.Analysis
-	eff *effects.Analysis
+	lk    *locks.Analysis
+	eff   *effects.Analysis
+	roles *Roles
 }
 
 // Locks returns engine L's result (computed once).
